@@ -301,6 +301,11 @@ pub fn corrupted(base: &J, faults: &[J]) -> Result<Vec<u8>, String> {
                     set32(&mut s.1, 0, v);
                 }
             }
+            "pooltail" => {
+                if let Some(s) = streams.iter_mut().find(|s| s.0 == pack_name("_StringPool", true)) {
+                    s.1.extend(std::iter::repeat(0u8).take(4 * 70000));
+                }
+            }
             "poolentry" => {
                 if let Some(s) = streams.iter_mut().find(|s| s.0 == pack_name("_StringPool", true)) {
                     let o = 4 + 4 * (f["k"].as_u64().unwrap_or(1) as usize - 1);
